@@ -1,7 +1,7 @@
 """C09 -- interpolatable compilation keeps compatible masters compatible."""
 import io, traceback
 from fractions import Fraction as Fr
-from harness import dsgen, geom
+from harness import dsgen, geom, gterm as G
 from harness.fonts import build_font, jsonable
 
 PID = "C09"
@@ -9,7 +9,10 @@ LEVEL_TEXT = ("PARTIAL. Proved in Coq: the interpolation-relevant structure of a
               "placing it through a component matrix is a function of its structure before and of whether the matrix mirrors; "
               "hence decomposing components turns equal structures into equal structures when each component mirrors in all "
               "masters or in none -- and a closed witness that the unrestricted statement is false (a component mirrored in one "
-              "master only: known finding F7). The joint decisions of the interpolatable pre-processors (which glyphs to "
+              "master only: known finding F7). check_for_nonmatching_components is transcribed (Interp/Nonmatching.v) and proved: a "
+              "composite it keeps never makes the TrueType pen decompose it in one master on its own, and with equal component "
+              "counts has the same 2x2 parts in every master (pre-repair code F19/F21 refuted); compared exactly with the real "
+              "method on random families around the F2Dot14 bounds. The other joint decisions of the interpolatable pre-processors (which glyphs to "
               "decompose / flatten / convert) and the sparse-master rules are checked on the implementation: every master "
               "returned by compileInterpolatableTTFs / ...TTFsFromDS / ...OTFsFromDS must have, per glyph, the same contour count, "
               "point count, on/off sequence and component list (cu2qu's joint search is environment).")
@@ -153,7 +156,98 @@ def postfilter_family(rng, lib, via_lib):
     return ds, fonts, masters
 
 
+def overflow_family(rng, lib):
+    """Light / sparse Medium layer / Bold.  D = A scaled by 2.25 (beyond F2Dot14 directly: fixed finding F19);
+    C = B scaled 1.5 with B = A scaled 1.5 (2.25 only once flattenComponents has composed the two: fixed finding F21).
+    The sparse layer holds C and D but neither B nor A."""
+    from fontTools.designspaceLib import SourceDescriptor
+    def master(k):
+        d = 20 * k
+        j = [rng.randint(-6, 6) for _ in range(4)]
+        A = {"name": "A", "unicodes": [0x41], "width": Fr(300 + d), "components": [], "anchors": [],
+             "contours": [[(Fr(0), Fr(0), "line"), (Fr(100 + d), Fr(0), "line"), (Fr(100 + d), Fr(120 + j[0]), "line"), (Fr(0), Fr(120 + j[1]), "line")]]}
+        B = {"name": "B", "unicodes": [], "width": Fr(450), "contours": [], "anchors": [],
+             "components": [("A", (Fr(3, 2), Fr(0), Fr(0), Fr(3, 2), Fr(10 + d), Fr(j[2])))]}
+        C = {"name": "C", "unicodes": [0x43], "width": Fr(700), "contours": [], "anchors": [],
+             "components": [("B", (Fr(3, 2), Fr(0), Fr(0), Fr(3, 2), Fr(5), Fr(d + j[3])))]}
+        D = {"name": "D", "unicodes": [0x44], "width": Fr(700), "contours": [], "anchors": [],
+             "components": [("A", (Fr(9, 4), Fr(0), Fr(0), Fr(9, 4), Fr(d), Fr(0)))]}
+        return {"glyphs": [A, B, C, D], "glyphOrder": ["A", "B", "C", "D"], "kerning": {}, "groups": {}, "lib": {},
+                "info": {"familyName": "Fam", "styleName": "Master%d" % k, "unitsPerEm": 1000, "ascender": 800, "descender": -200}}
+    masters = [master(0), master(2)]
+    mid = master(1)
+    ds, fonts = dsgen.make_designspace(rng, masters, lib)
+    layer = fonts[0].newLayer("mid")
+    tmp = build_font(mid, lib)
+    for nm in ("C", "D"):
+        gl = layer.newGlyph(nm)
+        gl.width = tmp[nm].width
+        tmp[nm].drawPoints(gl.getPointPen())
+    sd = SourceDescriptor()
+    sd.font, sd.layerName, sd.location, sd.name = fonts[0], "mid", {"Weight": 500}, "master.mid"
+    sd.familyName, sd.styleName = "Fam", "Mid"
+    ds.sources.insert(1, sd)
+    return ds, fonts, masters
+
+
+def nonmatching_section(ctx):
+    """TTFInterpolatablePreProcessor.check_for_nonmatching_components against Interp/Nonmatching.v on random families:
+    2-4 masters (some lacking the glyph), 0-3 components each, 2x2 entries around the F2Dot14 bounds (+-2 exactly, just
+    beyond), differing in one entry in one master, differing component counts"""
+    from ufo2ft.preProcessor import TTFInterpolatablePreProcessor
+    import ufoLib2
+    rng = ctx.subrng("nonmatching")
+    POOL = [Fr(1), Fr(1), Fr(0), Fr(-1), Fr(1, 2), Fr(2), Fr(-2), Fr(9, 4), Fr(-17, 8), Fr(3, 2), Fr(2) + Fr(1, 16384)]
+    cases, meta = [], []
+    for i in range(ctx.budget(150, 1200)):
+        nm = rng.randint(2, 4)
+        nc = rng.randint(0, 3)
+        base = [tuple(rng.choice(POOL[:7] if rng.random() < 0.7 else POOL) for _ in range(4)) for _ in range(nc)]
+        layers = []
+        for k in range(nm):
+            l = list(base)
+            r = rng.random()
+            if r < 0.25 and l:
+                j = rng.randrange(len(l)); e = rng.randrange(4)
+                c = list(l[j]); c[e] = rng.choice(POOL); l[j] = tuple(c)
+            elif r < 0.35:
+                l = l[:-1] if l and rng.random() < 0.5 else l + [tuple(rng.choice(POOL[:6]) for _ in range(4))]
+            layers.append(l if rng.random() < 0.85 or k == 0 else None)          # None: this master lacks the glyph
+        glyphsets = []
+        for l in layers:
+            f = ufoLib2.Font()
+            f.newGlyph("base")
+            if l is not None:
+                g = f.newGlyph("x")
+                pen = g.getPointPen()
+                for c in l:
+                    pen.addComponent("base", tuple(float(v) for v in c) + (rng.randint(-50, 50), rng.randint(-50, 50)))
+            glyphsets.append({g.name: g for g in f})
+        pp = TTFInterpolatablePreProcessor.__new__(TTFInterpolatablePreProcessor)
+        pp.glyphSets = glyphsets
+        needs = set()
+        try:
+            pp.check_for_nonmatching_components(needs)
+        except Exception as e:
+            ctx.spec_failure({"layers": jsonable(layers)}, "check_for_nonmatching_components raised %s: %s" % (type(e).__name__, e))
+            continue
+        present = [l for l in layers if l is not None]
+        ctx.count(); ctx.klass("nonmatching: %s" % ("decomposed" if "x" in needs else "kept"))
+        if "x" in needs and nc:
+            ctx.nontriv(("nm", i, ctx.scale))
+        gl = G.lst([G.lst([G.tup(*[geom.g_q(v) for v in c]) for c in l], "m2x2") for l in present], "(list m2x2)")
+        cases.append(G.tup(gl, G.b("x" in needs)))
+        meta.append({"layers": jsonable(layers), "decomposed": "x" in needs})
+    vals = ctx.coq_eval("From Coq Require Import QArith Qcanon.\nFrom U2F Require Import Base.Prelude Geometry.Model Interp.Nonmatching.",
+                        "fun c : (list (list m2x2) * bool) => if Bool.eqb (needs_decomposition (fst c)) (snd c) then 3 else 2",
+                        cases, chunk=150, tag="Nonmatching")
+    for v, case in zip(vals, meta):
+        if v is not None and v != 3:
+            ctx.corr_mismatch(case, "Gallina needs_decomposition (Interp/Nonmatching.v) differs from check_for_nonmatching_components")
+
+
 def explore(ctx):
+    nonmatching_section(ctx)
     import ufo2ft
     from ufo2ft.errors import InvalidFontData
     rng = ctx.subrng("ligamark")
@@ -186,6 +280,21 @@ def explore(ctx):
             ctx.spec_failure(case, "compileInterpolatableTTFsFromDS raised %s: %s\n%s" % (type(e).__name__, e, traceback.format_exc()[-1000:]))
             continue
         compare_masters(ctx, case, out, sparse=(1, ["M", "N"]))
+    rng = ctx.subrng("overflow")
+    for i in range(ctx.budget(4, 12)):
+        lib = ["ufoLib2", "defcon"][i % 2]
+        flatten = i % 4 < 2
+        ds, fonts, masters = overflow_family(rng, lib)
+        case = {"function": "compileInterpolatableTTFsFromDS", "options": {"flattenComponents": flatten}, "lib": lib,
+                "variant": "component scales beyond F2Dot14 (directly, and by flattening 1.5 x 1.5) + sparse layer without the bases",
+                "font": jsonable(masters[0]), "last_master": jsonable(masters[-1])}
+        ctx.count(); ctx.klass("TTFsFromDS/overflow+sparse/flatten=%s" % flatten); ctx.nontriv(("overflow", i, ctx.scale))
+        try:
+            out = [s.font for s in ufo2ft.compileInterpolatableTTFsFromDS(ds, flattenComponents=flatten).sources]
+        except Exception as e:
+            ctx.spec_failure(case, "compileInterpolatableTTFsFromDS raised %s: %s\n%s" % (type(e).__name__, e, traceback.format_exc()[-1000:]))
+            continue
+        compare_masters(ctx, case, out, sparse=(1, ["C", "D"]))
     rng = ctx.subrng("families")
     for i in range(ctx.budget(96, 480)):
         lib = ["ufoLib2", "defcon"][i % 2]
@@ -194,9 +303,18 @@ def explore(ctx):
         if variant == "sparse":
             n = max(n, 3)
         base = dsgen.base_master(rng)
+        # every second sparse case is forced (not left to chance) to be the interaction "nested composite kept in the sparse
+        # layer without its intermediate composite" x flattenComponents on the designspace TrueType path
+        forced = variant == "sparse" and (i // 8) % 6 == 0
+        if forced:
+            for _ in range(40):
+                by0 = {g["name"]: g for g in base["glyphs"]}
+                if any(any(by0[b]["components"] for b, _ in g["components"]) for g in base["glyphs"]):
+                    break
+                base = dsgen.base_master(rng)
         masters = [base] + [dsgen.perturb(rng, base, k) for k in range(1, n)]
         sparse_keep = [g["name"] for g in base["glyphs"][:2]]
-        if variant == "sparse" and rng.random() < 0.6:
+        if variant == "sparse" and (forced or rng.random() < 0.6):
             # a nested composite (top -> mid -> ...) kept in the sparse layer WITHOUT its intermediate composite
             by0 = {g["name"]: g for g in base["glyphs"]}
             nested = [g["name"] for g in base["glyphs"] if any(by0[b]["components"] for b, _ in g["components"])]
@@ -263,7 +381,7 @@ def explore(ctx):
             # not passed: it contradicts "interpolatable" and makes the post-processor run cffsubr on sparse masters, which
             # have no cmap (observation O10)
             opts["optimizeCFF"] = 1
-        if rng.random() < (0.6 if variant == "sparse" else 0.3) and "TTF" in fn:
+        if (forced or rng.random() < (0.6 if variant == "sparse" else 0.3)) and "TTF" in fn:
             opts["flattenComponents"] = True
         if rng.random() < 0.25:
             opts["skipExportGlyphs"] = [base["glyphs"][-1]["name"]]
